@@ -233,6 +233,56 @@ fn run_family(bytes: &[u8], ctx: &Ctx) -> CaseInfo {
     eval(&a, &b, &c, &extra, ctx)
 }
 
+/// Long spines: lists / improper lists / nested constructors of up to 400 (thorough 2000)
+/// levels; b and c differ from a in one element, in the tail, or in length by one.
+fn run_long(bytes: &[u8], ctx: &Ctx) -> CaseInfo {
+    use crate::gen::scale::{self, big_term, elements, SPINES};
+    let mut s = Source::new(bytes);
+    let thorough = ctx.tier == Tier::Thorough;
+    let vars: Vec<VarId> = (0..4).collect();
+    let n = scale::size(&mut s, scale::cap(thorough));
+    // lists twice as often as the other spines
+    let shape = if s.flag(128) { SPINES[s.below(2)] } else { SPINES[s.below(SPINES.len())] };
+    let el = elements(&mut s, n, &vars, 4);
+    let end = if s.flag(128) { Term::Var(vars[s.below(4)]) } else { Term::Int(5) };
+    let a = big_term(shape, n, &mut |i| el[i].clone(), end.clone());
+    let variant = |s: &mut Source, of: &Vec<Term>, end: &Term| -> Term {
+        let mut e2 = of.clone();
+        match s.below(5) {
+            0 => {}
+            1 => {
+                let pos = s.below(e2.len());
+                e2[pos] = if s.flag(128) { Term::Var(vars[s.below(4)]) } else { Term::Int(8) };
+            }
+            2 => {
+                // last element
+                let pos = e2.len() - 1;
+                e2[pos] = Term::Int(8);
+            }
+            3 => e2.push(Term::Int(0)),
+            _ => {
+                if e2.len() > 1 {
+                    e2.pop();
+                }
+            }
+        }
+        let end2 = if s.flag(50) { Term::Int(6) } else { end.clone() };
+        let m = e2.len();
+        big_term(shape, m, &mut |i| e2[i].clone(), end2)
+    };
+    let b = variant(&mut s, &el, &end);
+    let c = match s.below(3) {
+        0 => b.clone(),
+        1 => variant(&mut s, &el, &end),
+        _ => a.clone(),
+    };
+    let extra: Vec<Term> = if s.flag(128) { vec![Term::Int(3), Term::Var(1)] } else { vec![] };
+    let mut info = eval(&a, &b, &c, &extra, ctx);
+    truncate_sample(&mut info, 300);
+    info.class(if n >= 256 { "spine>=256" } else if n >= 64 { "spine>=64" } else if n >= 16 { "spine>=16" } else { "spine<16" });
+    info
+}
+
 fn fixed_tails(ctx: &Ctx) -> CaseInfo {
     // nested improper tails and a hash/eq check on lists differing only in the tail
     let a = Term::improper(vec![Term::Int(1), Term::improper(vec![Term::Int(2)], Term::Var(0))], Term::Var(1));
@@ -243,9 +293,12 @@ fn fixed_tails(ctx: &Ctx) -> CaseInfo {
 pub fn def() -> PropertyDef {
     PropertyDef {
         id: "C21",
-        rule: "triples (a, b, c) of terms of depth <= 3 over literals of every kind, 4 variables, nested proper/improper lists and 6 compound kinds, where b is a, a one-point mutation of a or independent, and c is b, a mutation of b, or a; plus 0-2 extra terms. Oracle: structural equality on the AST with identity on variables for == (reflexive, symmetric, transitive on the triple, rebuilt copies and clones), equal => equal DefaultHasher digests, and a Vec(+tail) model for is_list/is_empty/is_improper/head/tail/iter/into_iter/Index/IndexMut/contains/from_vec/from_array/collect/extend (proper lists)/improper_from_vec/improper_from_array/iter_mut and list Display. Non-trivial = nesting >= 2, an improper list, or a cross-kind comparison; distinct = hash of the printed case",
+        rule: "triples (a, b, c) of terms of depth <= 3 over literals of every kind, 4 variables, nested proper/improper lists and 6 compound kinds, where b is a, a one-point mutation of a or independent, and c is b, a mutation of b, or a; plus 0-2 extra terms. Oracle: structural equality on the AST with identity on variables for == (reflexive, symmetric, transitive on the triple, rebuilt copies and clones), equal => equal DefaultHasher digests, and a Vec(+tail) model for is_list/is_empty/is_improper/head/tail/iter/into_iter/Index/IndexMut/contains/from_vec/from_array/collect/extend (proper lists)/improper_from_vec/improper_from_array/iter_mut and list Display. Non-trivial = nesting >= 2, an improper list, or a cross-kind comparison; distinct = hash of the printed case. Family `long-spines`: the same oracle on lists / improper lists / successor, Pair, Node and head nestings of up to 400 (thorough 2000) levels, where b and c differ from a in one element, in the last element, in the tail, or in length by one",
         assumptions: vec!["extend is exercised on proper lists only (documented precondition)", "Display of compounds (Debug-derived) is not modelled"],
-        families: vec![Family { name: "terms", max_len: 120, quick: 400_000, thorough: 10_000_000, run: run_family }],
+        families: vec![
+            Family { name: "terms", max_len: 120, quick: 400_000, thorough: 10_000_000, run: run_family },
+            Family { name: "long-spines", max_len: 64, quick: 120_000, thorough: 600_000, run: run_long },
+        ],
         fixed: vec![Fixed { name: "nested-improper-tails", run: fixed_tails }],
         witnesses: vec![],
         exhaustive: None,
